@@ -7,7 +7,7 @@ q_checks (shape of AGENT_GUIDE.md):
   c12_rejects      corrupt snapshots must be rejected with a library error.
   c12_directed     nested/mutable context, machine output, completion: isolation and faithfulness (code only).
 
-Known findings are matched with the classifiers of props.CLASSIFIERS (check.py does this only for stream
+Known findings (currently F43) are matched with the classifiers of props.CLASSIFIERS (check.py does this only for stream
 oracles, so the q_checks do it for their own failures: a failure explained by an OPEN finding of C12 is counted,
 not reported; everything else is a `fail`).
 """
@@ -483,16 +483,12 @@ def tie_cuts(items):
                 continue
             k = c["k"]
             n += 1
-            # the hypotheses of the C12 theorems, evaluated by the driver on the model state at this cut:
-            # quiescent (`Quiet`), sane (`SnapOK`), and `IdSorted` exactly when the code's restored history
-            # lists come back in the order of the live ones
+            # the hypotheses of the C12 theorems that are not discharged in Lean, evaluated by the driver on the
+            # model state at this cut: quiescent (`Quiet`), sane (`SnapOK`); and `DISorted` (a theorem: cross-check)
             mo = o[4 + 2 * k]
-            if mo.get("q") != 0 or mo.get("rd") != 0 or mo.get("sane") is not True:
+            if mo.get("q") != 0 or mo.get("rd") != 0 or mo.get("sane") is not True or mo.get("disorted") is not True:
                 ties.append({"what": "cut-state-hypotheses", "flavor": flavor, "k": k, "case": case,
-                             "model": {kk: mo.get(kk) for kk in ("q", "rd", "sane")}})
-            if "restored" in c and mo.get("idsorted") != (c["restored"]["H"] == c["live_H"]):
-                ties.append({"what": "idsorted-vs-restored-order", "flavor": flavor, "k": k, "case": case,
-                             "model_idsorted": mo.get("idsorted"), "impl_restored": c["restored"]["H"], "impl_live": c["live_H"]})
+                             "model": {kk: mo.get(kk) for kk in ("q", "rd", "sane", "disorted")}})
             isnap = _canon_snap(json.loads(c["snap"]), False)
             if msnaps[k] is None or _canon_snap(msnaps[k], True) != isnap:
                 keys = [kk for kk in set(isnap) | set(msnaps[k] or {}) if isnap.get(kk) != (msnaps[k] or {}).get(kk)]
@@ -535,17 +531,6 @@ def _explained(prob, case, flavor, open_f):
         except Exception:
             continue
     return None
-
-
-def classify_history_order(prob, case, flavor):
-    """F40: the only thing wrong is the ORDER of the remembered history lists after a restore (the snapshot
-    stores them sorted by id), and every difference of the continuation disappears when the restored lists
-    are put back into (depth, id) order"""
-    if prob.get("kind") == "restored-history-order":
-        return True
-    if prob.get("kind") in ("continuation-differs", "cycles-differ"):
-        return bool(prob.get("hist_order_differs")) and bool(prob.get("vanishes_with_history_order_fix"))
-    return False
 
 
 SHAPE_CLASSES = ("missing-key", "wrong-type", "history-unknown-state", "history-unknown-owner")
